@@ -763,7 +763,7 @@ fn leb_s(v: i64) -> Vec<u8> {
 /// a section with things worth reading in it
 fn gen_section(rng: &mut Rng) -> Vec<u8> {
     let mut s = Vec::new();
-    let parts = rng.below(7);
+    let parts = if rng.chance(1, 20) { 0 } else { 1 + rng.below(10) };
     for _ in 0..parts {
         match rng.below(10) {
             0 => s.extend(leb_u(rng.boundary_u64())),
@@ -831,7 +831,14 @@ fn gen_op(rng: &mut Rng, n: usize, nid: usize, seclen: usize, allow_empty: bool,
             }
         }
         25 | 26 => format!("offid:{i}"),
-        27 | 28 => format!("lookup:{i}:{}", if nid == 0 { 0 } else { rng.below(nid as u64 + 1) }),
+        27 | 28 => {
+            if nid == 0 || rng.chance(1, 12) {
+                // nothing to look up yet (rarely: an id that does not exist)
+                if nid == 0 && rng.chance(9, 10) { format!("offid:{i}") } else { format!("lookup:{i}:{nid}") }
+            } else {
+                format!("lookup:{i}:{}", rng.below(nid as u64))
+            }
+        }
         29 => format!("len:{i}"),
         30 => format!("toslice:{i}"),
         31 => format!("tostr:{i}"),
@@ -850,20 +857,51 @@ fn gen_op(rng: &mut Rng, n: usize, nid: usize, seclen: usize, allow_empty: bool,
 }
 
 pub fn gen_history(rng: &mut Rng, sec: &[u8], nops: usize, allow_empty: bool, allow_panic: bool) -> String {
-    let mut toks = Vec::new();
+    // the table of readers is tracked by running the prefix on a real reader, so that most
+    // operations address a live reader (a dead or missing index answers `bad` on both sides)
+    let rc: Rc<[u8]> = Rc::from(sec);
+    let mut toks: Vec<String> = Vec::new();
+    let mut ops: Vec<Op> = Vec::new();
+    let mut live: Vec<usize> = vec![0];
     let mut n = 1usize;
     let mut nid = 0usize;
     for _ in 0..nops {
-        let t = gen_op(rng, n, nid, sec.len(), allow_empty, allow_panic);
-        // table growth is only known approximately here (a failed split returns no reader); the
-        // generator over-approximates, indices past the table answer `bad` on both sides
-        if t.starts_with("split:") || t.starts_with("clone:") || t.starts_with("nts:") {
-            if rng.chance(3, 4) {
-                n += 1;
+        let mut t = gen_op(rng, n, nid, sec.len(), allow_empty, allow_panic);
+        // re-aim 9 of 10 operations that hit a dropped reader, and most drops of reader 0
+        if let Some(op) = parse_op(&t) {
+            let (i, _) = op.readers();
+            let dead = i < n && !live.contains(&i);
+            let drop0 = matches!(op, Op::Drop(0));
+            if ((dead && rng.chance(9, 10)) || (drop0 && rng.chance(4, 5))) && !live.is_empty() {
+                let j = *rng.pick(&live);
+                let mut p: Vec<String> = t.split(':').map(|x| x.to_string()).collect();
+                p[1] = if drop0 && j == 0 && live.len() > 1 { live[1].to_string() } else { j.to_string() };
+                t = p.join(":");
             }
         }
-        if t.starts_with("offid:") {
-            nid += 1;
+        // keep at least one reader alive in 19 of 20 histories
+        if let Some(Op::Drop(i)) = parse_op(&t) {
+            if live.len() == 1 && live[0] == i && rng.chance(19, 20) {
+                t = format!("clone:{i}");
+            }
+        }
+        if let Some(op) = parse_op(&t) {
+            ops.push(op);
+            let run = run_hist(EndianRcSlice::new(rc.clone(), RunTimeEndian::Little), &rc, &ops, None, None, false);
+            n = 1 + run.trace.iter().filter(|o| o.contains('>')).count();
+            live = (0..n).collect();
+            for (k, o) in ops.iter().enumerate() {
+                if let Op::Drop(i) = o {
+                    if run.trace[k] != "bad@~" {
+                        live.retain(|x| x != i);
+                    }
+                }
+            }
+            if let Op::OffId(_) = op {
+                if run.trace[ops.len() - 1] != "bad@~" {
+                    nid += 1;
+                }
+            }
         }
         toks.push(t);
     }
@@ -907,7 +945,7 @@ pub fn gen(ctx: &Ctx, emit: &mut dyn FnMut(String)) {
     for _ in 0..triples {
         let (x, y, z, w) = (rng.pick(&alpha), rng.pick(&alpha), rng.pick(&alpha), rng.pick(&alpha));
         let e = if rng.chance(1, 2) { "le" } else { "be" };
-        emit(format!("rd-hist @MODE@ {e} {sec} {x} {y} {z} {w} lookup:0:0 toslice:1 toslice:2"));
+        emit(format!("rd-hist @MODE@ {e} {sec} offid:0 {x} {y} {z} {w} lookup:0:0 toslice:0 toslice:1"));
     }
     // ---- random histories over generated sections
     let n = ctx.n(9000, 300_000);
